@@ -92,6 +92,11 @@ def gen(rng, tier, index):
     spec = gen_solver(rng, name, steps, dt, tight=False, buggify=False, contacts=contact)
     if name not in ("ScipyIVP", "ScipyDAE"):
         spec["options"].update(fixed_point_max_iter=50, continue_with_unconverged=cont)
+        if plan["scene_kind"] == "contact" and rng.random() < 0.35:
+            # legal knob (only > 0 is required): a prox parameter beyond the contraction range makes the contact
+            # fixed point oscillate / diverge organically as soon as a contact closes
+            spec["options"]["prox_scaling"] = float(rng.uniform(2.0, 4.0))
+            plan["organic"] = True
     else:
         plan["stop_frac"] = float(rng.uniform(0.2, 0.8))
     plan["solver"] = spec
@@ -353,6 +358,9 @@ def execute(plan, out, log):
         raise Discard(f"pilot_raised:{name}:{type(pilot.exc).__name__}")
     r = judge(plan, pilot, out, None)
     reactions.add(("pilot", r))
+    if r != "no_failure":
+        out["probes"]["organic_failure_judged"] += 1
+        out["faults"]["F2o_organic_fixed_point_failure" if pilot.sim.failed_instances()[0][0] != "fsolve" else "F1o_organic_newton_failure"] += 1
     if out["violations"]:
         return
     if pilot.sol is not None and hasattr(pilot.sol, "t"):
